@@ -547,6 +547,34 @@ def c14_stall_compare(ir, mr):
     return a.get("res") == b.get("res") and a.get("late") == b.get("late")
 
 
+
+# ---------------------------------------------------------------- round 6: kind "idlimit"
+# a pipelined connection runs out of wire ids between two exchanges (connections born at nextQid = q0)
+def c14_idlimit_gen(rng, tier):
+    out = []
+    for _ in range(budget(tier, 1, 6)):
+        for tr in ("udp", "tcpp"):
+            for q0 in (65535, 65534, rng.choice([65530, 65532, 65533])):
+                out.append("i%d tr=%s q0=%d n=%d" % (len(out), tr, q0, rng.choice([4, 6, 9])))
+            out.append("i%d tr=%s q0=%d n=4" % (len(out), tr, rng.choice([0, 1000, 65000])))
+    return out
+
+
+def c14_idlimit_oracle(line, res):
+    f = gens.fields(line)
+    r = _res(res)
+    s = r.get("res", "")
+    if r.get("late") == "1" or "H" in s or "L" in s:
+        return "c14-late: an exchange returned later than its deadline + 1.5 s (%s)" % res
+    if s == "" or any(c not in "RE" for c in s):
+        return "c14-bad-result %s" % res
+    if "E" in s:
+        return ("c14-exhausted-connection-not-replaced: healthy server; the pooled connection ran out of wire ids (they "
+                "start at %s), but the exchange that met it was not carried by another connection: %d of %d failed, "
+                "connections seen by the server: %s (%s)" % (f["q0"], s.count("E"), len(s), r.get("acc"), res))
+    return None
+
+
 PROPS["C14"] = dict(
     kinds=[dict(name="faults", gen=c14_gen, oracle=c14_oracle, compare=c14_compare, classify=c14_classify,
                 nontrivial=lambda l, r: True, timeout=900),
@@ -563,7 +591,11 @@ PROPS["C14"] = dict(
                 classify=c14_streams_classify, nontrivial=lambda l, r: True, timeout=600),
            dict(name="stall", gen=c14_stall_gen, oracle=c14_stall_oracle, compare=c14_stall_compare,
                 classify=lambda l, r: "%s/%s/%s" % (gens.fields(l)["tr"], gens.fields(l)["srv"], _res(r).get("res")),
-                nontrivial=lambda l, r: True, timeout=600)],
+                nontrivial=lambda l, r: True, timeout=600),
+           dict(name="idlimit", gen=c14_idlimit_gen, oracle=c14_idlimit_oracle,
+                compare=lambda a, b: _res(a).get("res") == _res(b).get("res") and _res(a).get("acc") == _res(b).get("acc"),
+                classify=lambda l, r: "%s/%s" % (gens.fields(l)["tr"], "ok" if set(_res(r).get("res", "E")) <= set("R") else "failed"),
+                nontrivial=lambda l, r: True, timeout=300)],
     rule="one scripted exchange of a real upstream.NewUpstream (udp, tcp, tcp+pipeline, tls, tls+pipeline, https/h2, quic) "
          "against a fake loopback server (DoQ: quic-go server): refuse / black-hole dial / accept-and-close / silent / half frame / garbage / "
          "FIN / RST on fresh connections, and on pooled connections while idle or at their next use, incl. k = 1, 5, 6, "
